@@ -111,6 +111,21 @@
 //! }
 //!
 
+// Verification hook point: expands to nothing unless built with `--cfg jammdb_verif`.
+#[cfg(jammdb_verif)]
+macro_rules! vpoint {
+    ($name:expr $(, $k:ident = $v:expr)* $(,)?) => {
+        $crate::verif::point($name, &[$((stringify!($k), ($v) as u64)),*])
+    };
+}
+#[cfg(not(jammdb_verif))]
+macro_rules! vpoint {
+    ($($t:tt)*) => {};
+}
+
+#[cfg(jammdb_verif)]
+pub mod verif;
+
 #[allow(clippy::mutable_key_type)]
 mod bucket;
 mod bytes;
